@@ -5,6 +5,8 @@
 //!   T <string>                                   Purl::from_str                      (needs package-type, else NA)
 //!   B <type> <name> <ns> <version> <subpath> [<key>=<value> ...]   GenericPurlBuilder<String>
 //!   U <type> <name> <ns> <version> <subpath> [<key>=<value> ...]   PurlBuilder       (needs package-type, else NA)
+//!   Q [<key>=<value> ...] | [<probe> ...]         a Qualifiers collection filled by insert, then get / contains_key
+//!                                                 of every probe and ==, partial_cmp of every stored key with it
 //! Response: one line, `OK <type> <ns> <name> <version> <subpath> <k=v,...> <canonical>` (hex fields),
 //! `ERR <variant debug> | <display>`, `PANIC`, or `NA`.
 
@@ -99,6 +101,42 @@ fn build_typed(_f: &[&str]) -> String {
     "NA".into()
 }
 
+fn collection(f: &[&str]) -> String {
+    let mut q = purl::Qualifiers::default();
+    let mut out = String::from("Q");
+    let mut probes = false;
+    for field in f {
+        if *field == "|" {
+            probes = true;
+            out.push_str(&format!(" len={}", q.len()));
+            continue;
+        }
+        if !probes {
+            let Some((k, v)) = field.split_once('=') else { return "BADREQ".into() };
+            match q.insert(unhex(k), unhex(v)) {
+                Ok(_) => out.push_str(" +"),
+                Err(e) => out.push_str(&format!(" E({e:?})")),
+            }
+        } else {
+            let p = unhex(field);
+            out.push_str(&format!(" [{}:{}:", hex(q.get(p.as_str()).unwrap_or("")), q.contains_key(p.as_str())));
+            for (k, _) in q.iter() {
+                let eq = k == p.as_str();
+                let c = match k.partial_cmp(p.as_str()) {
+                    Some(std::cmp::Ordering::Less) => '<',
+                    Some(std::cmp::Ordering::Equal) => '=',
+                    Some(std::cmp::Ordering::Greater) => '>',
+                    None => '?',
+                };
+                out.push(if eq { 'E' } else { 'n' });
+                out.push(c);
+            }
+            out.push(']');
+        }
+    }
+    out
+}
+
 fn main() {
     std::panic::set_hook(Box::new(|_| {}));
     let stdin = std::io::stdin();
@@ -116,6 +154,7 @@ fn main() {
             "T" => typed_parse(&unhex(fields.get(1).copied().unwrap_or("-"))),
             "B" => build_generic(&fields[1..]),
             "U" => build_typed(&fields[1..]),
+            "Q" => collection(&fields[1..]),
             _ => "BADREQ".to_string(),
         })
         .unwrap_or_else(|_| "PANIC".to_string());
